@@ -309,6 +309,46 @@ def extended_md_shared(args):
     return False, "executors do not share extended metadata"
 
 
+@driver
+def substitution_swap(args):
+    "formals (pt, eta) called with (j.eta(), j.pt()): both substituted at once, actual text never rescanned (F-8)"
+    ds = _dataset().MetaData(dict(metadata_type="add_cpp_function", name="MyF", include_files=[], arguments=["pt", "eta"],
+                                  code=["auto r_out = pt + eta;"], result_name="r_out", return_type="double"))
+    q = ds.SelectMany("lambda e: e.Jets('J').Select(lambda j: MyF(j.eta(), j.pt()))").AsROOTTTree("f.root", "t", ["c"])
+    info, files = translate(q, "atlas")
+    import re
+    lines = [ln.strip() for ln in files["query.cxx"].split("\n") if "auto r_out" in ln]
+    ok = len(lines) == 1 and re.fullmatch(r"auto r_out = (i_obj\d+)->eta\(\) \+ \1->pt\(\);", lines[0]) is not None
+    return (not ok), "MyF(pt, eta) with code `pt + eta` called as MyF(j.eta(), j.pt()) emitted %r" % (lines,)
+
+
+@driver
+def miniaod_two_tokens(args):
+    "two collections in one miniAOD query read through two tokens, each declared and initialised once (F-7)"
+    import re
+    q = _dataset().Select("lambda e: (e.Muons('slimmedMuons').Count(), e.Electrons('slimmedElectrons').Count())").AsROOTTTree("f.root", "t", ["a", "b"])
+    info, files = translate(q, "cms_miniaod")
+    text = "\n".join(files.values())
+    reads = re.findall(r"iEvent\.getByToken\((\w+), result\);", text)
+    inits = re.findall(r"(\w+)\s*=\s*consumes<", text)
+    bad = len(set(reads)) != 2 or sorted(inits) != sorted(set(inits)) or set(inits) != set(reads)
+    return bad, "getByToken reads %r, consumes initialisations %r" % (reads, inits)
+
+
+@driver
+def element_pointer(args):
+    "element_pointer of a CMS collection declaration decides the pointer depth of the elements (F-16)"
+    from func_adl_xAOD.common.meta_data import process_metadata
+    out = []
+    for t in ("add_cms_aod_event_collection_info", "add_cms_miniaod_event_collection_info"):
+        for ep in (True, False):
+            r = process_metadata([dict(metadata_type=t, name="X", include_files=["a.h"], container_type="C", element_type="E", contains_collection=True, element_pointer=ep)])
+            d = r[0].container_type.element_type.p_depth
+            if d != (1 if ep else 0):
+                out.append("%s element_pointer=%r -> element pointer depth %d" % (t, ep, d))
+    return bool(out), "; ".join(out) or "element_pointer honoured"
+
+
 def main():
     name = sys.argv[1]
     args = json.loads(sys.argv[2]) if len(sys.argv) > 2 else {}
